@@ -1,12 +1,20 @@
-"""C15 schedule-vector generator: one harness per vector; capacity, faults, line bytes, producer tags stay symbolic.
+"""C15 schedule generator: one harness per run = (schedule vector, capacity, set of failing write_all calls); line
+bytes, producer tags and flush failures stay symbolic.
+
+Measured: a symbolic capacity or a symbolic write failure alone makes one vector exceed 400 s (they select paths in
+the worker and shift every later yield point, so after the first merge every counter is symbolic and each of the
+unrolled receiver operations has to consider every pending operation); with these three fixed a harness takes
+seconds, because the channel shim keeps its control block in a static and CBMC constant-propagates the schedule.
+A failing flush does not change the schedule (work() returns Err instead of Ok(Empty/Continue): the worker loop
+continues either way), so it stays symbolic.
 
 A *vector* v says how many pending main-thread operations (the L offered lines in program order, then the guard's
 Msg::Shutdown) run at the y-th yield point = before the worker's y-th receiver operation (recv / try_recv).
 A worker that takes L+1 messages performs at most 2L+1 receiver operations, so vectors have 2L+1 entries summing
 to L+1. The little simulator below is NOT an oracle (the harness' ledger is); it only
-  * prunes vectors that are infeasible for every capacity in {1,2} and every fault pattern (a blocking recv on an
-    empty queue, a blocking send / the guard's send on a full queue: those runs are other vectors), and
-  * tells which kani::cover! witnesses a vector can satisfy, so that the runner can require all of them.
+  * prunes combinations that are infeasible (a blocking recv on an empty queue, a blocking send / the guard's send
+    on a full queue: those runs are other vectors), and
+  * tells which kani::cover! witnesses a combination can satisfy, so that the runner can require all of them.
 """
 import itertools
 
@@ -27,7 +35,8 @@ def runs(v, L, cap, lossy, maxfaults=MAXFAULTS):
     results = []
 
     def explore(faultseq):
-        st = dict(q=[], y=0, op=0, calls=0, dropped=0, empties=0, sconsumed=False, wfail=0, ffail=0, swallowed=False)
+        st = dict(q=[], y=0, op=0, calls=0, dropped=0, empties=0, sconsumed=False, wfail=0, ffail=0, swallowed=False,
+                  wcalls=0, flushes=0, wf=[])
 
         def do_op():
             i = st["op"]
@@ -62,6 +71,12 @@ def runs(v, L, cap, lossy, maxfaults=MAXFAULTS):
             st["calls"] += 1
             if k >= len(faultseq):
                 raise Need()
+            if kind == "wfail":
+                if faultseq[k]:
+                    st["wf"].append(st["wcalls"])
+                st["wcalls"] += 1
+            else:
+                st["flushes"] += 1
             if faultseq[k]:
                 st[kind] += 1
             return faultseq[k]
@@ -128,99 +143,99 @@ def all_vectors(L):
             yield v
 
 
-def analyse(v, L, lossy):
-    """-> None if never feasible, else dict of satisfiable witnesses"""
-    w = dict(caps=set(), reported=False, dropped=False, wfail=False, swallowed=False, empties=False, maxy=0,
-             clean_full=False)
-    any_ok = False
-    for cap in (1, 2):
-        for st in runs(v, L, cap, lossy):
-            any_ok = True
-            w["caps"].add(cap)
-            w["maxy"] = max(w["maxy"], st["y"])
-            if st["swallowed"]:
-                w["swallowed"] = True
-            else:
-                w["reported"] = True
-                if st["dropped"]:
-                    w["dropped"] = True
-                if st["wfail"]:
-                    w["wfail"] = True
-                if st["empties"]:
-                    w["empties"] = True
-    return w if any_ok else None
-
-
-def name_of(v, lossy):
-    s = "".join(str(x) for x in v).rstrip("0") or "0"
-    return "c15_%s_v%s" % ("lossy" if lossy else "block", s)
-
-
-def family(maxl=MAXL):
-    """-> list of (name, L, lossy, vector, witnesses)"""
+def combos(L, lossy):
+    """-> list of (vector, cap, failing write calls (tuple of call numbers), end state of the flush-never-fails run)"""
     out = []
-    for lossy in (True, False):
-        for L in range(0, maxl + 1):
-            for v in all_vectors(L):
-                w = analyse(v, L, lossy)
-                if w is not None:
-                    out.append((name_of(v, lossy), L, lossy, v, w))
+    for v in all_vectors(L):
+        for cap in (1, 2):
+            for st in runs(v, L, cap, lossy):
+                if st["ffail"] == 0:
+                    out.append((v, cap, tuple(st["wf"]), st))
     return out
 
 
-# the quick tier: vectors that force a full queue, an empty queue and a fault next to Shutdown
-QUICK = {
-    "c15_lossy_v31",       # three lines before the worker starts (1 or 2 dropped), guard dropped right after the first take
-    "c15_lossy_v1010101",  # the worker finds the queue empty after every line
-    "c15_lossy_v211",      # full queue at capacity 2, line and Shutdown in one batch
-    "c15_block_v211",      # non-lossy, queue full at capacity 2 (capacity 1 is infeasible: the producer would block)
-    "c15_block_v1010101",  # non-lossy, empty queue between any two lines
-    "c15_block_v1111",     # non-lossy, one operation per receiver operation: Shutdown directly behind the last line
-}
+def vname(v):
+    return "".join(str(x) for x in v).rstrip("0") or "0"
 
-HEAD = """//! GENERATED by gen_c15.py — do not edit. C15 schedule vectors (see c15.rs for the runtime and the oracle).
+
+def name_of(v, lossy, cap, wf):
+    return "c15_%s_c%d_v%s_w%s" % ("lossy" if lossy else "block", cap, vname(v), "".join(str(k) for k in wf) or "x")
+
+
+def family(maxl=MAXL):
+    """-> list of (name, L, lossy, vector, cap, wf, end state): one harness per run"""
+    out = []
+    for lossy in (True, False):
+        for L in range(0, maxl + 1):
+            for v, cap, wf, st in combos(L, lossy):
+                out.append((name_of(v, lossy, cap, wf), L, lossy, v, cap, wf, st))
+    return out
+
+
+def vectors_in(fam):
+    return len({(x[2], x[3]) for x in fam})
+
+
+# quick tier: every run of up to 1 line; of the 2- and 3-line vectors those that force a full queue (31, 211, 21,
+# 201), an empty queue after every line (1010101, 10101) and Shutdown directly behind a line (1111, 111, 121), each
+# without and with one failing write
+QUICK_VECTORS = ("31", "1010101", "211", "1111", "121", "21", "10101", "111", "201")
+
+
+def is_quick(name, L, lossy, v, cap, wf, st):
+    if L <= 1:
+        return True
+    if vname(v) not in QUICK_VECTORS:
+        return False
+    if L == 2:
+        return len(wf) == 0 or (vname(v) in ("21", "111") and len(wf) == 1)
+    # three lines: no failing write, or the last write failing (the one next to Shutdown)
+    return len(wf) == 0 or wf == (st["wcalls"] - 1,)
+
+
+HEAD = """//! GENERATED by gen_c15.py — do not edit. C15 schedules (see c15.rs for the runtime and the oracle).
+//! One harness per run = (schedule vector, capacity, set of failing write_all calls).
 use crate::c15::*;
 use crate::common::*;
 """
 
 
-def harness(name, L, lossy, v, w):
+def harness(name, L, lossy, v, cap, wf, st):
     vec = list(v) + [0] * (2 * MAXL + 1 - len(v))
+    budget = MAXFAULTS - len(wf)
     s = "#[kani::proof]\n#[kani::unwind(%d)]\n" % (L + 3)
     s += "#[kani::stub(std::rt::thread_cleanup, noop)]\n#[kani::stub(core::fmt::write, fmt_write_stub)]\n"
     s += "fn %s() {\n" % name
-    s += "    let mut w = setup(%d, %s, [%s], %d, true);\n" % (L, "true" if lossy else "false",
-                                                                 ", ".join(str(x) for x in vec), MAXFAULTS)
+    s += "    let mut w = setup(%d, %d, %s, [%s], [%s], %d);\n" % (
+        cap, L, "true" if lossy else "false", ", ".join(str(x) for x in vec),
+        ", ".join("true" if k in wf else "false" for k in range(MAXL)), budget)
     s += "    let out = drive(&mut w);\n"
     s += "    let m = unsafe { &M };\n"
-    if w["reported"]:
-        s += "    kani::cover!(out.reported_shutdown);\n"
-    if w["dropped"]:
-        s += "    kani::cover!(out.reported_shutdown && m.dropped > 0);\n"
-    if w["wfail"]:
-        s += "    kani::cover!(out.reported_shutdown && m.failed > 0);\n"
-    if w["empties"]:
-        s += "    kani::cover!(out.reported_shutdown && m.empties > 0);\n"
-    if w["swallowed"]:
+    # witnesses (what this run exercises; the numbers come from the generator's simulator; they are covers, not
+    # assertions: the assertions are the ledger's)
+    s += "    kani::cover!(out.reported_shutdown && m.dropped == %d && m.failed == %d && m.empties == %d);\n" % (
+        st["dropped"], st["wfail"], st["empties"])
+    if budget > 0:
         s += "    kani::cover!(out.swallowed);\n"
-    for cap in sorted(w["caps"]):
-        s += "    kani::cover!(m.cap == %d);\n" % cap
+        if st["flushes"] >= 2:
+            s += "    kani::cover!(out.reported_shutdown && m.flush_failed > 0);\n"
+    if L >= 2:
+        s += "    kani::cover!(m.tag[1] == 1);\n"
     s += "    check_end(w, &out);\n"
     s += "}\n"
     return s
 
 
-def generate(path, maxl=MAXL, only=None):
+def generate(path, maxl=MAXL, quick_only=False):
     with open(path, "w") as f:
         f.write(HEAD)
-        for name, L, lossy, v, w in family(maxl):
-            if only is None or name in only:
-                f.write("\n" + harness(name, L, lossy, v, w))
+        for x in family(maxl):
+            if not quick_only or is_quick(*x):
+                f.write("\n" + harness(*x))
 
 
 if __name__ == "__main__":
     fam = family()
-    print(len(fam), "vectors;", sum(1 for x in fam if x[2]), "lossy")
-    for name, L, lossy, v, w in fam:
-        print(name, L, sorted(w["caps"]), {k: w[k] for k in ("reported", "dropped", "wfail", "empties", "swallowed")},
-              "QUICK" if name in QUICK else "")
+    print(len(fam), "harnesses (runs);", vectors_in(fam), "vectors;", sum(1 for x in fam if is_quick(*x)), "quick")
+    for x in fam:
+        print(x[0], "QUICK" if is_quick(*x) else "")
